@@ -64,3 +64,48 @@ def p_matrix(w, exact=False):
             if w[i][j]:
                 out[i][j] = w[i][j] * perm_dp(minor(w, i, j)) / tot
     return out, tot
+
+
+def p_matrix_blocks(w, max_block=12):
+    """P for a square matrix whose rows are prefix-supported (row i is
+    non-zero exactly in its first r_i columns - the staircase family the
+    sampler produces, in any row order), computed block by block.
+
+    With the rows sorted by reach, a prefix of k rows whose largest reach is k
+    can only be matched to the first k columns (Hall), so every perfect
+    matching splits there: P is block diagonal and inside a block equals the
+    block's own permanent ratios.  Returns (P, sizes) with P None when there
+    is no perfect matching, or (False, sizes) when a block exceeds max_block
+    (too expensive here).
+    """
+    n = len(w)
+    reach = []
+    for row in w:
+        r = sum(1 for x in row if x)
+        if any(not x for x in row[:r]):
+            raise ValueError("row is not prefix-supported")
+        reach.append(r)
+    order = sorted(range(n), key=lambda i: reach[i])
+    blocks, start = [], 0
+    for k in range(1, n + 1):
+        if reach[order[k - 1]] < k:
+            return None, []
+        if reach[order[k - 1]] == k:
+            blocks.append((start, k))
+            start = k
+    if start != n:
+        return None, []
+    sizes = [b - a for a, b in blocks]
+    if max(sizes, default=0) > max_block:
+        return False, sizes
+    out = [[0] * n for _ in range(n)]
+    for a, b in blocks:
+        rows = order[a:b]
+        sub = [[w[i][j] for j in range(a, b)] for i in rows]
+        pb, tot = p_matrix(sub)
+        if pb is None:
+            return None, sizes
+        for x, i in enumerate(rows):
+            for y, j in enumerate(range(a, b)):
+                out[i][j] = pb[x][y]
+    return out, sizes
